@@ -61,6 +61,15 @@ func C19(e *Env) {
 	}
 	c19Compare(e, gm, ym)
 	reinstantiate(e)
+	// a fixpoint needs a deterministic generator: alias numbering and element order must not follow map order
+	r.Rule("R08.1", "no order-sensitive range over a map in module code (engine M, shared with C08): otherwise import aliases are numbered in map order and a regenerated file differs from run to run", 4)
+	for _, m := range MapRanges(e.P) {
+		if m.Sensitive {
+			r.Violate("R08.1", m.Key, "order-sensitive range over a map: "+m.Why, nil, m.Pos)
+		} else {
+			r.Hold("R08.1", m.Key, "order-insensitive", m.Pos)
+		}
+	}
 	r.Extra["programs"] = 1
 	r.Extra["disagreements_checked"] = len(r.Obs())
 	r.NotCovered = append(r.NotCovered,
